@@ -16,6 +16,7 @@ TARGETS = [
     ("stepdrv4", ["stepdrv4.cpp"], {"sessions": 16}),
     ("stepdrv5", ["stepdrv5.cpp"], {"sessions": 16}),
     ("stepdrv6", ["stepdrv6.cpp"], {"sessions": 16}),
+    ("stepdrv7", ["stepdrv7.cpp"], {"sessions": 16}),
     ("orddrv", ["orddrv.cpp"], {"sessions": 16}),
     ("mapdrv", ["mapdrv.cpp"], {"sessions": 16, "epoch_time": 5}),
 ]
